@@ -160,7 +160,9 @@ def strip_generics(name):
     return "".join(out)
 
 
-ITERS = ("iterlit", "iteradapt")
+ITERS = ("iterlit", "iteradapt", "itersym")
+ITER_SOURCES = ("core::slice::<impl [T]>::iter", "std::slice::<impl [T]>::iter", "std::iter::IntoIterator::into_iter", "std::vec::Vec::iter")
+_CUT = object()
 _SOME = ("std::option::Option", "Some")
 _OK = ("std::result::Result", "Ok")
 _ERR = ("std::result::Result", "Err")
@@ -950,13 +952,33 @@ class _Run:
             if pos >= len(el):
                 return [(st, it, None)]
             return [(st, mk("iterlit", (pos + 1,), el), el[pos])]
+        if tag(it) == "itersym":
+            # a list of unknown length: `next()` is an event whose answer the path decides, at most loop-bound elements
+            n = payload(it)[0]
+            src = kids(it)[0]
+            if n >= self.loop_bound:
+                return [(st, it, _CUT)]
+            site = "%s#%d" % (self.fn.key, bb)
+            occ = st.occ.get(bb, 0)
+            st.occ[bb] = occ + 1
+            res = sym.call("std::iter::Iterator::next", [src], site, occ)
+            callee = {"name": "next", "pretty": "std::iter::Iterator::next", "trait": "std::iter::Iterator", "args": [], "res_kind": None, "krate": "core"}
+            ev = Event(self.fn, bb, t["line"], callee, "std::iter::Iterator::next", [src], [src], res, None, None)
+            ev.idx = len(st.events)
+            st.events.append(ev)
+            st.items.append(("e", ev))
+            atom = sym.op("is_some", res)
+            s2 = st.fork()
+            self.add_cond(st, (atom, True), bb_from=None, line=t["line"])
+            self.add_cond(s2, (atom, False), bb_from=None, line=t["line"])
+            return [(st, mk("itersym", (n + 1,), (src,)), sym.unwrap(res)), (s2, it, None)]
         kind = payload(it)[0]
         src, clo = kids(it)
         out = []
         for (s1, src1, item) in self.iter_pull(st, src, bb, t):
             it1 = mk("iteradapt", (kind,), (src1, clo))
-            if item is None:
-                out.append((s1, it1, None))
+            if item is None or item is _CUT:
+                out.append((s1, it1, item))
                 continue
             if kind == "flatten":
                 # an iterator of Options: Some(x) yields x, None is skipped
@@ -985,6 +1007,21 @@ class _Run:
             if kind == "map":
                 out.append((s1, it1, r))
                 continue
+            if kind == "filter_map":
+                # the closure answers Some(y) (yield y) or None (skip)
+                if tag(r) == "agg" and payload(r)[1] in ("Some", "None"):
+                    if payload(r)[1] == "Some":
+                        out.append((s1, it1, kids(r)[0]))
+                    else:
+                        out.extend(self.iter_pull(s1, it1, bb, t))
+                    continue
+                at_ = sym.op("is_some", r)
+                s2 = s1.fork()
+                self.add_cond(s1, (at_, True), bb_from=None, line=t["line"])
+                out.append((s1, it1, sym.unwrap(r)))
+                self.add_cond(s2, (at_, False), bb_from=None, line=t["line"])
+                out.extend(self.iter_pull(s2, it1, bb, t))
+                continue
             # filter: keep the item iff the closure answers true
             atom, pol = self.bool_atom(r)
             known = sym.boolc(payload(atom)[0] == pol) if tag(atom) == "bool" else None
@@ -1008,7 +1045,8 @@ class _Run:
         nm = callee["name"]
         if name not in ("std::iter::Iterator::next", "std::iter::Iterator::collect"):
             return None
-        if nm == "collect" and not any(str(a).startswith("std::vec::Vec<") for a in callee.get("args", [])):
+        into_result = nm == "collect" and any(str(a).startswith("std::result::Result<std::vec::Vec<") for a in callee.get("args", []))
+        if nm == "collect" and not into_result and not any(str(a).startswith("std::vec::Vec<") for a in callee.get("args", [])):
             return None
         snap = st.fork()
         try:
@@ -1016,6 +1054,9 @@ class _Run:
                 alts = self.iter_pull(st, args[0], bb, t)
                 outs = []
                 for (s1, it1, item) in alts:
+                    if item is _CUT:
+                        self.finish(s1, "cut")
+                        continue
                     self.store_through(s1, t["args"][0], raw[0], it1)
                     if item is None:
                         res = sym.agg("std::option::Option", "None", [], [])
@@ -1037,10 +1078,34 @@ class _Run:
             while work:
                 s0, it0, acc = work.pop()
                 for (s1, it1, item) in self.iter_pull(s0, it0, bb, t):
-                    if item is None:
+                    if item is _CUT:
+                        self.finish(s1, "cut")
+                    elif item is None:
                         root, path = self.resolve(s1, t["dest"])
-                        self.write(s1, root, path, mk("vec", (), tuple(acc)))
+                        v_ = mk("vec", (), tuple(acc))
+                        self.write(s1, root, path, sym.agg("std::result::Result", "Ok", ["0"], [v_]) if into_result else v_)
                         outs.append((s1, t["target"]))
+                    elif into_result:
+                        # collecting Results: the first Err is the answer, an Ok contributes its payload
+                        if tag(item) == "agg" and payload(item)[1] in ("Ok", "Err"):
+                            alts_ = [(s1, payload(item)[1] == "Ok")]
+                        else:
+                            at_ = sym.op("is_ok", item)
+                            kn_ = s1.memo.get(at_)
+                            if kn_ in (True, False):
+                                alts_ = [(s1, kn_)]
+                            else:
+                                s2 = s1.fork()
+                                self.add_cond(s1, (at_, True), bb_from=None, line=t["line"])
+                                self.add_cond(s2, (at_, False), bb_from=None, line=t["line"])
+                                alts_ = [(s1, True), (s2, False)]
+                        for (sx, isok) in alts_:
+                            if isok:
+                                work.append((sx, it1, acc + [sym.unwrap(item)]))
+                            else:
+                                root, path = self.resolve(sx, t["dest"])
+                                self.write(sx, root, path, sym.agg("std::result::Result", "Err", ["0"], [mk("unwrap_err", (), (item,))]))
+                                outs.append((sx, t["target"]))
                     else:
                         work.append((s1, it1, acc + [item]))
             return outs
@@ -1251,10 +1316,16 @@ class _Run:
             if a0 is not None and tag(a0) in ("array", "vec") and (name == "std::iter::IntoIterator::into_iter" or (nm == "iter" and name.endswith("<impl [T]>::iter"))):
                 # an iterator over a list whose elements are all known: stepped concretely (iter_call)
                 return mk("iterlit", (0,), tuple(self.deep_deref(st, x) for x in kids(a0)))
+            if a0 is not None and tag(a0) == "call" and str(payload(a0)[0]) in ITER_SOURCES and \
+                    name in ("std::iter::Iterator::filter", "std::iter::Iterator::map", "std::iter::Iterator::filter_map") and \
+                    len(args) == 2 and self.closure_target(args[1]) is not None:
+                # an adaptor with a known closure over a list of unknown length: stepped like the loop it abbreviates,
+                # up to the unrolling bound (iter_pull)
+                return mk("iteradapt", (nm,), (mk("itersym", (0,), (a0,)), args[1]))
             if a0 is not None and tag(a0) in ITERS:
                 if name == "std::iter::IntoIterator::into_iter":
                     return a0
-                if name in ("std::iter::Iterator::filter", "std::iter::Iterator::map") and len(args) == 2 and self.closure_target(args[1]) is not None:
+                if name in ("std::iter::Iterator::filter", "std::iter::Iterator::map", "std::iter::Iterator::filter_map") and len(args) == 2 and self.closure_target(args[1]) is not None:
                     return mk("iteradapt", (nm,), (a0, args[1]))
                 if name == "std::iter::Iterator::flatten" and len(args) == 1:
                     return mk("iteradapt", ("flatten",), (a0, sym.tup([])))
